@@ -6,7 +6,6 @@ package access
 // whatever state the call needs (set-up transactions carry every privileged witness).
 
 import (
-	"encoding/json"
 	"fmt"
 	"math"
 	"os"
@@ -43,6 +42,8 @@ type plan struct {
 	quorum      []neotest.Signer // vote mode: full positive direction = one transaction per listed key, the last one fires
 	fuzzable    bool             // requirement is a pure witness requirement: random arguments under unmet witnesses must stay inert
 	doc         string           // the requirement in words (for violation details)
+	// role-change schedule (rolechange_test.go): builds the transaction of the dismissed / of the new Inner Ring member
+	role func(w *world, old, cur []neotest.SingleSigner, dismissed bool, round int) roleTx
 }
 
 func never(holds) bool { return false }
@@ -63,25 +64,13 @@ func alphabetOnly(args func(w *world) []any, effect bool) builder {
 func updateBuilder(name string) builder {
 	return func(w *world) *plan {
 		src := w.src[name]
-		ct := w.bumped(src)
-		neb, _ := ct.NEF.Bytes()
-		mb, _ := json.Marshal(ct.Manifest)
-		p := &plan{effect: true, fuzzable: true}
-		if src == "nns" {
-			p.args = []any{neb, string(mb), nil}
-		} else {
-			p.args = []any{neb, mb, nil}
-		}
+		p := &plan{args: w.updateArgs(name), effect: true, fuzzable: true}
 		if src == "neofs" || src == "processing" {
 			p.req = func(h holds) bool { return h("IRM") }
 			p.doc = "majority (n/2+1) of the NeoFSAlphabet role keys"
 		} else {
 			p.req = rC
 			p.doc = "committee majority (n/2+1)"
-		}
-		// version gate (C16): a contract that already runs the bumped version refuses the same update
-		if w.contractVersion(name) >= parseVersion(scratchRoot) {
-			p.noHalt, p.effect = true, false
 		}
 		return p
 	}
@@ -165,6 +154,8 @@ func builders() map[string]builder {
 	}
 
 	// ------------------------------------------------------------ audit
+	roleChangeBuilders(b)
+	existingBuilders(b)
 	auditBlob := func(w *world, key []byte) []byte {
 		raw := []byte{0x0a, 0x00, 0x10}
 		raw = append(raw, 1, 0, 0, 0, 0, 0, 0, 0) // epoch 1
